@@ -608,3 +608,68 @@ def run_preempt(case):
         return out
     finally:
         b.close()
+
+
+# ------------------------------------------------------------------ minimal call forms + real hits (oracle only)
+def _form_kwargs(form):
+    from deep.api.tracepoint.tracepoint_config import MetricDefinition
+    kw = {}
+    vals = {'args': {'fire_period': '0'}, 'watches': ['x + 1'], 'metrics': [MetricDefinition('m', 'COUNTER')]}
+    empty = {'args': {}, 'watches': [], 'metrics': []}
+    for name in ('args', 'watches', 'metrics'):
+        f = form.get(name, 'omitted')
+        if f == 'none':
+            kw[name] = None
+        elif f == 'empty':
+            kw[name] = type(empty[name])()
+        elif f == 'nonempty':
+            kw[name] = vals[name]
+    return kw
+
+
+def run_hits(case):
+    """registrations through the real Deep.register_tracepoint in every call form (each of args / watches / metrics
+    omitted, None, empty or given), some unregistered again, every apply task run; then each location is hit once
+    through the real TriggerHandler.trace_call and the snapshots handed to the push service are counted."""
+    import rig
+    b = SvcBench()
+    out = {'raised': [], 'degraded': list(b.degraded)}
+    try:
+        pushed = []
+        b.deep.push.push_snapshot = lambda s: pushed.append(s)
+        regs = []
+        for r in case['regs']:
+            try:
+                regs.append(b.deep.register_tracepoint(r['path'], r['line'], **_form_kwargs(r.get('form', {}))))
+            except BaseException as e:  # noqa: B902
+                regs.append(None)
+                out['raised'].append(f'register {r}: {type(e).__name__}: {e}')
+        for i in case.get('unregister', []):
+            try:
+                if regs[i] is not None:
+                    regs[i].unregister()
+            except BaseException as e:  # noqa: B902
+                out['raised'].append(f'unregister {i}: {type(e).__name__}: {e}')
+        n = 0
+        while b.exec.waiting() and n < 100:
+            b.do({'op': 'applyTask', 'i': 0})
+            n += 1
+        hits = {}
+        for path, line in sorted({(r['path'], r['line']) for r in case['regs']}):
+            before = len(pushed)
+            try:
+                b.deep.trigger_handler.trace_call(rig.MockFrame('/app/' + path, 'fn', line, {'x': 1}), 'line', None)
+            except BaseException as e:  # noqa: B902
+                out['raised'].append(f'trace_call {path}:{line}: {type(e).__name__}: {e}')
+            new = pushed[before:]
+            hits['%s:%d' % (path, line)] = {'snapshots': len(new),
+                                            'watch_results': sum(len(s.watches) for s in new)}
+        out['hits'] = hits
+        return out
+    except core.Infra:
+        raise
+    except BaseException as e:  # noqa: B902
+        out['bench_error'] = f'{type(e).__name__}: {e}'
+        return out
+    finally:
+        b.close()
